@@ -251,7 +251,12 @@ func (ex *Exec) applyContract(st *State, fr *Frame, x *ssa.Call, c *Contract, ke
 			continue
 		}
 		var inst *LetDef
-		if cc := ex.contractFor(fr.Fn); cc != nil {
+		// the instantiation is written in the contract of the function under verification (also for calls made
+		// from bodies it executes inline)
+		for _, cc := range []*Contract{ex.contractFor(fr.Fn), ex.C} {
+			if cc == nil || inst != nil {
+				continue
+			}
 			for i := range cc.CallGhosts {
 				nm := cc.CallGhosts[i].Name
 				if nm == short+"."+g[0] || nm == short[strings.LastIndex(short, ".")+1:]+"."+g[0] {
@@ -375,6 +380,10 @@ func (ex *Exec) applyContract(st *State, fr *Frame, x *ssa.Call, c *Contract, ke
 	env.bindLets(c, true)
 	for _, e := range c.Ensures {
 		st.assume(env.termBool(e.Expr))
+	}
+	for _, e := range c.TrustEnsures {
+		st.assume(env.termBool(e.Expr))
+		ex.UsedAssumed["trusted postcondition of "+key+": "+e.Src] = true
 	}
 	if x != nil {
 		ex.bindResult(fr, x, rets)
